@@ -33,7 +33,7 @@ MANIFEST = {
                  'attribute kind x policy x datum under a recording '
                  'security policy; non-interference (two-run) and mediation '
                  '(policy log) oracles',
-    'text': 'A table of 134 access channels (client lookup, with / with '
+    'text': 'A table of 140 access channels (client lookup, with / with '
             'only, attribute / item / _.getattr / _[...] access in '
             'expressions, dtml-in items as objects and 2-tuples, '
             'skip_unauthorized, sequence-var-, first-/last-, the ten '
@@ -178,6 +178,36 @@ class StrNode(Node):
 def ns_seq_refused_str(attr, datum, other=None):
     return None, {'seq': [StrNode(pubdata=datum, refuse_item=True),
                           StrNode(pubdata='shown')]}
+
+
+class RecNode(Node):
+    """a record: its fields are attributes *and* keys (result rows, request
+    like objects); without `mapping` it is a client object like any other"""
+
+    def keys(self):
+        return [k for k in self.__dict__]
+
+    def __getitem__(self, key):
+        try:
+            return self.__dict__[key]
+        except KeyError:
+            raise KeyError(key)
+
+    def __len__(self):
+        return len(self.__dict__)
+
+
+def ns_rec(attr, datum, other=None):
+    return None, {'o': RecNode(**{attr: datum})}
+
+
+def ns_client_rec(attr, datum, other=None):
+    return RecNode(**{attr: datum}), {}
+
+
+def ns_seq_rec(attr, datum, other=None):
+    return None, {'seq': [RecNode(**{attr: datum, 'ident': 'e1'}),
+                          RecNode(**{attr: 'zz-last', 'ident': 'e2'})]}
 
 
 def ns_client(attr, datum, other=None):
@@ -360,6 +390,15 @@ CHANNELS = [
     ('with-only', '<dtml-with o only><dtml-var ATTR></dtml-with>', ns_obj,
      ''),
     ('with-expr', '<dtml-with "o"><dtml-var ATTR></dtml-with>', ns_obj, ''),
+    ('with-record', '<dtml-with o><dtml-var ATTR></dtml-with>', ns_rec, ''),
+    ('with-record-expr', '<dtml-with "o"><dtml-var ATTR></dtml-with>',
+     ns_rec, ''),
+    ('with-record-only', '<dtml-with o only><dtml-var ATTR></dtml-with>',
+     ns_rec, ''),
+    ('client-record', '<dtml-var ATTR>', ns_client_rec, ''),
+    ('in-record', '<dtml-in seq><dtml-var ATTR>,</dtml-in>', ns_seq_rec, ''),
+    ('let-record-expr', '<dtml-let v="o.ATTR"><dtml-var v></dtml-let>',
+     ns_rec, 'expr'),
     ('withmaponly-expr', '<dtml-with m mapping only><dtml-var "o.ATTR">'
      '</dtml-with>', via_mapping(ns_obj), 'expr'),
     ('withmaponly-with', '<dtml-with m mapping only><dtml-with o>'
@@ -646,7 +685,11 @@ def setup():
 
         class R(RestrictedDTML, HTML):
             pass
-        _state.update(policy=pol, R=R, HTML=HTML)
+
+        class R1(RestrictedDTML, HTML):
+            # a class that supplies the attribute guard only
+            guarded_getitem = None
+        _state.update(policy=pol, R=R, R1=R1, HTML=HTML)
     return _state
 
 
@@ -668,6 +711,11 @@ def cases(tier):
     for ch in CHANNELS:
         for kind in ATTRS:
             yield {'channel': ch[0], 'kind': kind}
+            if 'items' not in ch[3] and (
+                    'expr' in ch[3] or ch[0].startswith(('with', 'client-'))):
+                # the same under a template class that supplies
+                # guarded_getattr and leaves guarded_getitem unset
+                yield {'channel': ch[0], 'kind': kind, 'guard': 'attr-only'}
 
 
 def channel(cid):
@@ -684,6 +732,7 @@ def run(case):
     cid, src0, builder, flags = channel(case['channel'])
     kind = case['kind']
     attr = ATTRS[kind]
+    R = st['R1'] if case.get('guard') == 'attr-only' else st['R']
     if 'fixed:' in flags:
         # the guarded name is a fixed (string) method name
         if kind == 'private':
@@ -692,6 +741,7 @@ def run(case):
         attr = flags.split('fixed:')[1].split()[0]
     src = src0.replace('ATTR', attr)
     tag = '%s:%s' % (cid, kind)
+    gv = ':attr-guard-only' if case.get('guard') else ''
     n = 0
 
     def both(cls, deny):
@@ -731,14 +781,14 @@ def run(case):
             return res
         pol.deny_items = True
         try:
-            (o1, l1), (o2, l2) = both(st['R'], [])
+            (o1, l1), (o2, l2) = both(R, [])
         finally:
             pol.deny_items = False
         if o1 != o2 or (o1[0] == 'ok' and D1 in o1[1]):
             res.violate('non-interference', 'leak:%s' % site(cid),
                         {'source': src, 'refused': 'the first item',
                          'run1': o1, 'run2': o2, 'policy_log': l1})
-        (a1, _), (a2, _) = both(st['R'], [])
+        (a1, _), (a2, _) = both(R, [])
         if a1 == a2 or not (a1[0] == 'ok' and D1 in a1[1]):
             res.violate('harness', 'harness:item-channel-shows-nothing:%s'
                         % cid, {'source': src, 'allowed_run': a1})
@@ -747,36 +797,36 @@ def run(case):
         res.evals = n
         return res
     if kind == 'public':
-        (o1, l1), (o2, l2) = both(st['R'], [])
+        (o1, l1), (o2, l2) = both(R, [])
         # mediation: a visible datum must have been validated
         v1 = visible(o1, D1)
         differs = o1 != o2
         if (v1 or (v1 is None and differs)) and attr not in l1:
-            res.violate('mediation', 'unmediated:%s' % site(cid),
+            res.violate('mediation', 'unmediated:%s%s' % (site(cid), gv),
                         {'source': src, 'output': o1, 'policy_log': l1})
         res.outcome = 'public:%s' % ('visible' if (v1 or differs)
                                      else 'not-visible')
     elif kind == 'refused':
-        (o1, l1), (o2, l2) = both(st['R'], [attr])
+        (o1, l1), (o2, l2) = both(R, [attr])
         if o1 != o2:
-            res.violate('non-interference', 'leak:%s' % site(cid),
+            res.violate('non-interference', 'leak:%s%s' % (site(cid), gv),
                         {'source': src, 'refused': attr, 'run1': o1,
                          'run2': o2, 'policy_log': l1})
         elif visible(o1, D1):
-            res.violate('non-interference', 'leak:%s' % site(cid),
+            res.violate('non-interference', 'leak:%s%s' % (site(cid), gv),
                         {'source': src, 'refused': attr, 'run1': o1,
                          'policy_log': l1})
         res.outcome = 'refused:%s' % o1[0]
         res.nontrivial = True
     else:
-        for cls, how in ((st['R'], 'guarded'), (st['HTML'], 'unguarded')):
-            if how == 'unguarded' and 'expr' in flags:
+        for cls, how in ((R, 'guarded'), (st['HTML'], 'unguarded')):
+            if how == 'unguarded' and ('expr' in flags or gv):
                 # unrestricted Python expressions may name any attribute;
                 # the underscore rule is about name lookup in client objects
                 continue
             (o1, l1), (o2, l2) = both(cls, [])
             if o1 != o2 or visible(o1, D1):
-                res.violate('privacy', 'private:%s:%s' % (site(cid), how),
+                res.violate('privacy', 'private:%s:%s%s' % (site(cid), how, gv),
                             {'source': src, 'attribute': attr, 'run1': o1,
                              'run2': o2})
         res.outcome = 'private:%s' % o1[0]
